@@ -38,6 +38,11 @@ CHECKS = {
         text="Deblur.tla enumerates every image size <= 3x3 (quick) / 4x4 (thorough), every kernel size <= image, every single-tap kernel x every impulse (blurring is bilinear) plus asymmetric/even-size catalogue kernels; TLC computes the blurred image and the N x N operator from the definition and checks impulse->centred PSF, mass preservation and matrix = operator. Each state is replayed into apply_blur_fft (4 weighted/shifted channels), both matrix builders of the deblurring application (entry-for-entry equality with TLC's matrix), qslst_restore_fft (normal-equation residual with TLC's operator for four lambdas; lambda=0 inverts shifts) and qslst_restore_matrix (= FFT form). Random integer blurs/builders are recomputed by TLC; float blurs/restorations/linearity are bounded in units; PSF builders unit-sum/symmetric/centred.",
         note="Trusted: oracle direct-sum convolution (cross-checked against TLC on the exact family), numpy linear algebra for residuals. Sizes <= 5x5.",
         design_ref="5/C17"),
+    "C05": dict(
+        technique="TLC-enumerated spectral class space with exact expectations (Spectral.tla) instantiated on the exact unitary family and run through the Q-SVD routines; measurements judged by MeasureTrace.tla",
+        text="Spectral.tla enumerates every shape <= 4x4 (quick) / 5x5 (thorough), every non-increasing singular-value vector over {0,2,3,5} (all multiplicity patterns: k-fold repeats, several zeros) and unitary-library picks, and computes rank, nullities, sorted values, ||A||_F^2, determinant and the Eckart-Young optimum for every R (consistency checked as invariants). Each class is built exactly (A = U diag(s) V^H, dyadic exactly-unitary U, V) and run through classical_qsvd_full and classical_qsvd for every R; returned values vs expected, orthonormality, reconstruction and truncation error are logged in units and bounded by the trace spec. Random float matrices of prescribed rank use the complex-adjoint oracle.",
+        note="Known finding (recorded): degenerate spectra (repeated singular value / null space of dimension >= 2) violate orthonormality/reconstruction. Trusted: oracle product and complex-adjoint SVD; bounds 1024 / 16384 units.",
+        design_ref="5/C05"),
 }
 
 NOT_YET = "check not built yet in this round; see DESIGN.md section 5"
